@@ -57,6 +57,15 @@ def run(ck):
         oki = is_call(vi, "QDate::currentDate") or is_this_field(vi, DF)
         ck.ob("C09-O1", sitestr(rt), oki, "fallback only when the file date is invalid: %s" % describe(vi), key="rotate|date-fallback")
     dated_before_rotation(ck, S, DF)
+    # the index is searched over the directory as it was before this rotation's retention ran
+    rem_reach = set()
+    for f_ in S.m.values():
+        if any(destructive_kind(x) == "remove" for x in f_.all_nodes()):
+            rem_reach.add(f_.id)
+    early = [n for n in rt.calls() if n.get("fn") in rem_reach and n.get("fn") != S.m["compressFile"].id and g.can_reach(g.site_of(n), g.site_of(ni[0]))]
+    ck.ob("C09-O2", sitestr(rt, early[0]) if early else sitestr(rt, ni[0]), not early, "rotate(): the next index is computed before any rotated file is deleted" if not early else
+          "rotate(): %s deletes rotated files before the next index is computed: when retention removes the last file of the day (N = 2) the index starts again at 1 and the name of a deleted file is reused" % describe(early[0])[:40],
+          key="rotate|retention-before-index")
     # ---- O2
     fi = S.m["findNextIndexForDate"]
     next_index(ck, S, "C09-O2")
